@@ -93,6 +93,22 @@ def all_declarations(n):
         yield [list(c) for c in combo]
 
 
+def run_chunk(args):
+    """Worker of the thorough tier: every declaration over n nodes whose first node has the subset of index `first`."""
+    n, first = args
+    import torch
+    torch.set_num_threads(1)
+    subsets = [list(c) for k in range(n + 2) for c in itertools.combinations(range(n + 1), k)]
+    out = []
+    for combo in itertools.product(subsets, repeat=n - 1):
+        out.append(run_real([list(subsets[first])] + [list(c) for c in combo]))
+    return out
+
+
+def n_subsets(n):
+    return 2 ** (n + 1)
+
+
 def random_declaration(rnd, n, kind):
     """kind: 'dag' (random order-respecting edges, connected-ish), 'digraph' (any edges), 'dirty' (unknown/self refs)."""
     perm = list(range(1, n + 1))
